@@ -12,6 +12,47 @@ def signature(plans, cls):
     return {"class": cls, "n_plans": len(plans), "n_lines": len(lines)}
 
 
+def fidelity_crosscheck(exe, seed, n):
+    """Build the real `eav` with the repository's own Makefile in a scratch copy and compare its stdout with the
+    in-process tool's stdout on the files of n generated fault-free plans."""
+    import tempfile, shutil, subprocess, glob
+    tmp = tempfile.mkdtemp(prefix="verif-c20-")
+    rep = {"plans": 0, "invocations_compared": 0, "mismatches": [], "built": False}
+    try:
+        src = os.path.join(tmp, "repo")
+        def ign(d, names):
+            return [n for n in names if n == ".git" or n == "_build" or n.endswith((".o", ".so", ".a", ".bin"))
+                    or (n in ("eav", "eav.static") and os.path.basename(d) == "bin")]
+        shutil.copytree(build.REPO, src, ignore=ign)
+        p = subprocess.run(["make", "-C", src, "-j4"], stdout=subprocess.PIPE, stderr=subprocess.STDOUT, text=True)
+        real = os.path.join(src, "bin", "eav")
+        if p.returncode != 0 or not os.path.exists(real):
+            rep["error"] = "make failed: " + p.stdout[-400:]
+            return rep
+        rep["built"] = True
+        env = dict(core.ENV); env["LD_LIBRARY_PATH"] = src
+        for i in range(n):
+            d = os.path.join(tmp, "p%d" % i); os.makedirs(d)
+            q = subprocess.run([exe, "dump", "--cfg", "nofault", "--seed", str(seed), "--index", str(i), "--outdir", d],
+                               stdout=subprocess.PIPE, stderr=subprocess.PIPE, env=core.ENV)
+            if q.returncode != 0:
+                continue
+            rep["plans"] += 1
+            k = 0
+            while os.path.exists(os.path.join(d, "inv%d.out" % k)):
+                files = sorted(glob.glob(os.path.join(d, "inv%d_f*.txt" % k)), key=lambda x: int(x.rsplit("_f", 1)[1][:-4]))
+                r = subprocess.run([real] + files, stdout=subprocess.PIPE, stderr=subprocess.PIPE, env=env, timeout=60)
+                want = open(os.path.join(d, "inv%d.out" % k), "rb").read()
+                rep["invocations_compared"] += 1
+                if r.returncode != 0 or r.stdout != want:
+                    rep["mismatches"].append({"index": i, "invocation": k, "rc": r.returncode, "real_len": len(r.stdout), "sim_len": len(want)})
+                k += 1
+            shutil.rmtree(d)
+    finally:
+        shutil.rmtree(tmp, ignore_errors=True)
+    return rep
+
+
 def main(tier, replay=None):
     seed = core.seed_from_env()
     t0 = time.time()
@@ -34,6 +75,9 @@ def main(tier, replay=None):
                Batch("iofault", exe, "C20", "iofault", seed, 10**8, secs, W, samples=True).run(),
                Batch("outfault", exe, "C20", "outfault", seed, 10**8, max(3, secs // 2), W, samples=True).run()]
     violations, known, nondet = handle_candidates("C20", batches, budget=250)
+    fidelity = fidelity_crosscheck(exe, seed, 15 if tier == "quick" else 400)
+    if fidelity.get("mismatches"):
+        nondet.append("fidelity cross-check: in-process stdout differs from the real bin/eav built by the repository Makefile: %s" % fidelity["mismatches"][:3])
     stats = None
     allh, nont = set(), set()
     done = 0; wall_sim = 0.0; per_batch = []; samples = []
@@ -75,6 +119,7 @@ def main(tier, replay=None):
                                         "libidn2: real"],
                        "tool_externals": ext, "tree": build.tree_fingerprint()},
         "known_findings_reported": known, "nondeterministic_reports": nondet,
+        "fidelity_crosscheck_real_binary": fidelity,
     }
     assumptions = ["sampling, not proof", "after an injected read error only verdicts of lines that ended before the fault offset are required exactly (glibc hands a torn line to the tool as a line)",
                    "after an injected stdout error only termination, memory safety and exit status 0 are required",
